@@ -40,6 +40,9 @@ pub struct C10;
 pub enum Sym {
     InitKnown,
     InitUnknown,
+    /// handshake for the known document whose message already carries entries (a range-item part with the
+    /// peer's validly signed entries): protocol-conformant, but not what an honest initiator sends first
+    InitItems,
     /// the reply a real replica computes from the other side's last message (or its own initial message)
     SyncLive,
     /// a well-formed message the session does not expect (0: foreign-namespace ranges, 1: invalid entries,
@@ -90,6 +93,7 @@ fn sym() -> impl Strategy<Value = Sym> {
     prop_oneof![
         4 => Just(Sym::InitKnown),
         1 => Just(Sym::InitUnknown),
+        2 => Just(Sym::InitItems),
         6 => Just(Sym::SyncLive),
         3 => (0u8..4).prop_map(Sym::SyncGarbage),
         2 => (0u8..3).prop_map(Sym::Abort),
@@ -108,11 +112,11 @@ impl Prop for C10 {
     const LEVEL: &'static str = "fault_enumeration";
 
     fn rule() -> String {
-        "(a) a scripted peer plays frame sequences over the alphabet {Init(known), Init(unknown), Sync(live reply of a real replica), \
+        "(a) a scripted peer plays frame sequences over the alphabet {Init(known), Init(unknown), Init carrying entries, Sync(live reply of a real replica), \
          Sync(unexpected but well-formed), Abort(each reason), undecodable frame, oversized length, truncated frame, close} against \
          the real accepting side (BobState::run + into_outcome, accept callback Allow or Reject(each reason)) and against the real \
          initiating side (run_alice), over in-memory duplex streams; all sequences of length <= 3 (quick) / <= 4 (thorough) over a \
-         9-symbol alphabet are enumerated, longer ones generated; (b) the real initiator and the real acceptor talk through a proxy \
+         10-symbol alphabet are enumerated, longer ones generated; (b) the real initiator and the real acceptor talk through a proxy \
          that, before forwarding frame m (every m enumerated per pair of stores), closes the replica, disables sync, shuts the \
          store actor down, or cuts the stream inside the frame (clean EOF or reset) on one side. Oracle: both sides finish within \
          the watchdog, nobody panics (including into_outcome after an error and the store actor thread), a rejected Init produces \
@@ -130,6 +134,7 @@ impl Prop for C10 {
         let alphabet = vec![
             Sym::InitKnown,
             Sym::InitUnknown,
+            Sym::InitItems,
             Sym::SyncLive,
             Sym::SyncGarbage(1),
             Sym::Abort(1),
@@ -303,6 +308,19 @@ fn garbage(kind: u8) -> ProtocolMessage {
     MMessage { parts }.to_real()
 }
 
+/// A message whose single range-item part carries `entries` (the whole key space, peer asks for ours back).
+fn items_message(entries: &[SignedEntry]) -> ProtocolMessage {
+    let lo = RecordIdentifier::new(namespace(0).id(), author(0).id(), b"");
+    MMessage {
+        parts: vec![MPart::RangeItem(MRangeItem {
+            range: MRange { x: lo.clone(), y: lo },
+            values: entries.iter().map(|e| (e.clone(), ContentStatus::Complete)).collect(),
+            have_local: false,
+        })],
+    }
+    .to_real()
+}
+
 fn frame_bytes(f: &Frame) -> Vec<u8> {
     let mut out = BytesMut::new();
     FrameCodec::default().encode(f.clone(), &mut out).expect("encode");
@@ -373,6 +391,7 @@ fn vs_bob(ctx: &mut Ctx, local: &[Small], peer: &[Small], accept: u8, script: &[
         tokio::pin!(bob);
         let mut bob_done: Option<(Result<NamespaceId, String>, Option<NamespaceId>, SyncOutcome)> = None;
 
+        let peer_entries: Vec<SignedEntry> = crate::common::dump(&mut pstore, ns)?;
         let mut replica = es(pstore.open_replica(&ns))?;
         let mut pstate = SyncOutcome::default();
         let mut rbuf = BytesMut::new();
@@ -387,16 +406,16 @@ fn vs_bob(ctx: &mut Ctx, local: &[Small], peer: &[Small], accept: u8, script: &[
             for s in script {
                 let mut expect_reply = false;
                 let bytes: Vec<u8> = match s {
-                    Sym::InitKnown | Sym::InitUnknown => {
-                        let m = es(replica.sync_initial_message())?;
-                        let target = if *s == Sym::InitKnown { ns } else { namespace(2).id() };
+                    Sym::InitKnown | Sym::InitUnknown | Sym::InitItems => {
+                        let m = if *s == Sym::InitItems { items_message(&peer_entries) } else { es(replica.sync_initial_message())? };
+                        let target = if *s == Sym::InitUnknown { namespace(2).id() } else { ns };
                         if started {
                             deviated_after_start = true;
                         }
                         expect_reply = true;
                         if !first_init_seen {
                             first_init_seen = true;
-                            if accept == 0 && *s == Sym::InitKnown {
+                            if accept == 0 && *s != Sym::InitUnknown {
                                 started = true;
                             }
                         }
@@ -516,7 +535,10 @@ fn vs_bob(ctx: &mut Ctx, local: &[Small], peer: &[Small], accept: u8, script: &[
             o.class("deviates-after-accepted-init");
         }
         // a declined request: abort frame on the wire, store untouched
-        let first_is_init = matches!(script.first(), Some(Sym::InitKnown) | Some(Sym::InitUnknown));
+        let first_is_init = matches!(script.first(), Some(Sym::InitKnown) | Some(Sym::InitUnknown) | Some(Sym::InitItems));
+        if accept != 0 && script.first() == Some(&Sym::InitItems) && !peer_entries.is_empty() {
+            o.class("declined-init-carrying-entries");
+        }
         if accept != 0 && first_is_init {
             o.class("declined");
             let want = reason(accept - 1);
@@ -607,7 +629,7 @@ fn vs_alice(ctx: &mut Ctx, local: &[Small], peer: &[Small], script: &[Sym], o: &
                             }
                         }
                     }
-                    Sym::InitKnown | Sym::InitUnknown => {
+                    Sym::InitKnown | Sym::InitUnknown | Sym::InitItems => {
                         deviated = true;
                         frame_bytes(&Frame::init(ns, es(replica.sync_initial_message())?))
                     }
